@@ -77,7 +77,7 @@ same_frames(const stir::TimeFrameDefinitions& a, const stir::TimeFrameDefinition
   for (unsigned f = 1; f <= a.get_num_frames(); ++f)
     {
       const double s1 = a.get_start_time(f), s2 = b.get_start_time(f), e1 = a.get_end_time(f), e2 = b.get_end_time(f);
-      if (std::fabs(s1 - s2) > 1e-3 + 1e-5 * std::fabs(s1) || std::fabs(e1 - e2) > 1e-3 + 1e-5 * std::fabs(e1))
+      if (std::fabs(s1 - s2) > 2e-3 || std::fabs(e1 - e2) > 2e-3) // times are kept to the millisecond
         return false;
     }
   return true;
